@@ -156,35 +156,56 @@ fn unspec() -> RC {
     RC { v: (f64::NAN, f64::NAN), q: QC::Unspec }
 }
 
+/// moderate modulus
+fn moderate(z: C) -> bool {
+    let m = cabs(z);
+    finite(z) && m >= 1e-3 && m <= 1e3
+}
+/// away from the cut of ln / sqrt / powers (the negative real axis) and from zero
+pub fn off_negative_axis(z: C) -> bool {
+    moderate(z) && !(z.0 < 0.0 && z.1.abs() < 1e-3 * cabs(z))
+}
+/// away from the cuts on the real axis beyond +-1 (asin, acos, atanh) and from the branch points
+fn off_real_cuts(z: C) -> bool {
+    moderate(z) && (z.1.abs() >= 1e-3 * cabs(z) || z.0.abs() <= 1.0 - 1e-2) && cabs(csub(z, ONE)) >= 1e-2 && cabs(cadd(z, ONE)) >= 1e-2
+}
+/// away from the cuts on the imaginary axis beyond +-i (atan, asinh) and from the branch points
+fn off_imag_cuts(z: C) -> bool {
+    moderate(z) && (z.0.abs() >= 1e-3 * cabs(z) || z.1.abs() <= 1.0 - 1e-2) && cabs(csub(z, I)) >= 1e-2 && cabs(cadd(z, I)) >= 1e-2
+}
+
+/// Depth-1 reference of a function on exactly known operands (real or complex, each judged against
+/// the cuts and singular points of the function at hand).
 pub fn func(f: Func, a: &[C]) -> RC {
     use Func::*;
     let z = a[0];
     if f == Abs {
         return if finite(z) && cabs(z).is_finite() { RC { v: (cabs(z), 0.0), q: QC::Rel(1e-12) } } else { unspec() };
     }
-    if !a.iter().all(|x| generic(*x)) {
+    if !a.iter().all(|x| finite(*x)) {
         return unspec();
     }
     let small = z.0.abs() <= 30.0 && z.1.abs() <= 30.0;
     match f {
-        Sqrt => rel9(csqrt(z)),
+        Sqrt if off_negative_axis(z) => rel9(csqrt(z)),
         Exp if small => rel9(cexp(z)),
         Exp2 if small => rel9(cexp((z.0 * std::f64::consts::LN_2, z.1 * std::f64::consts::LN_2))),
-        Ln => rel9(cln(z)),
-        Lb => {
+        Ln if off_negative_axis(z) => rel9(cln(z)),
+        Lb if off_negative_axis(z) => {
             let l = cln(z);
             rel9((l.0 / std::f64::consts::LN_2, l.1 / std::f64::consts::LN_2))
         }
-        Log => {
+        Log if off_negative_axis(z) && off_negative_axis(a[1]) => {
             let lb = cln(a[1]);
-            if cabs(lb) < 1e-2 {
+            let lx = cln(z);
+            if cabs(lb) < 1e-2 || cabs(lx) < 1e-2 {
                 return unspec();
             }
-            rel9(cdiv(cln(z), lb))
+            rel9(cdiv(lx, lb))
         }
         Pow => pow_ref(a[0], a[1]),
         // root(n, x) = x^(1/n)
-        Root => pow_ref(a[1], cdiv(ONE, a[0])),
+        Root if cabs(a[0]) >= 1e-3 => pow_ref(a[1], cdiv(ONE, a[0])),
         Sin if small => rel9(csin(z)),
         Cos if small => rel9(ccos(z)),
         Tan if small => {
@@ -203,18 +224,19 @@ pub fn func(f: Func, a: &[C]) -> RC {
             }
             rel9(cdiv(csinh(z), c))
         }
-        Asin => rel9(casin(z)),
-        Acos => rel9(cacos(z)),
-        Atan => rel9(catan(z)),
-        Asinh => rel9(casinh(z)),
-        Acosh => rel9(cacosh(z)),
-        Atanh => rel9(catanh(z)),
+        Asin if off_real_cuts(z) => rel9(casin(z)),
+        Acos if off_real_cuts(z) => rel9(cacos(z)),
+        Atanh if off_real_cuts(z) => rel9(catanh(z)),
+        Atan if off_imag_cuts(z) => rel9(catan(z)),
+        Asinh if off_imag_cuts(z) => rel9(casinh(z)),
+        // acosh: cut on the real axis below 1
+        Acosh if moderate(z) && (z.1.abs() >= 1e-3 * cabs(z) || z.0 >= 1.0 + 1e-2) && cabs(csub(z, ONE)) >= 1e-2 && cabs(cadd(z, ONE)) >= 1e-2 => rel9(cacosh(z)),
         _ => unspec(),
     }
 }
 
 pub fn pow_ref(a: C, b: C) -> RC {
-    if !generic(a) || !finite(b) || cabs(b) > 50.0 {
+    if !off_negative_axis(a) || !finite(b) || cabs(b) > 50.0 {
         return unspec();
     }
     let e = cmul(b, cln(a));
